@@ -23,6 +23,7 @@ inductive Expr where
   | perm (p : List Int) (dom : Ty)
   | cups (l r : Ty)
   | caps (l r : Ty)
+  | transpose (a : Expr) (left : Bool)
   deriving Repr, Inhabited
 
 def Expr.eval : Expr → Except Err Diagram
@@ -61,5 +62,8 @@ def Expr.eval : Expr → Except Err Diagram
   | .perm p dom => Diagram.permutation p dom
   | .cups l r => Diagram.cups l r
   | .caps l r => Diagram.caps l r
+  | .transpose a left => match a.eval with
+    | .error e => .error e
+    | .ok x => x.transpose left
 
 end DV
